@@ -18,6 +18,7 @@ RULE = (
     "independent closest-point formulas for line/plane/circle, dense sampling for curves and surfaces; every clamp/link "
     "type built from float64 arrays that are changed in place afterwards (every subset) against an untouched twin. non-trivial = a "
     "distinct (type, frame, creation offset | parameter | move) evaluation"
+    " Surface clamps with parameter boxes that differ between the two parameters."
 )
 ASSUMPTIONS = [
     "clamp creation runs scipy.optimize.minimize with tol = 1e-7: positions compared to 1e-5 x characteristic length",
